@@ -374,6 +374,13 @@ pub fn foreign_csrs(zoo: &[ZooKey]) -> Vec<(String, Vec<u8>, bool)> {
     v.push(("csr three SAN extensions in one request".into(), sign(mk(&[san.clone(), san2.clone(), san3.clone()]).cri()), false));
     v.push(("csr empty SAN extension before a non-empty one".into(), sign(mk(&[san_empty.clone(), san2.clone()]).cri()), false));
     v.push(("csr non-empty SAN extension before an empty one".into(), sign(mk(&[san.clone(), san_empty]).cri()), false));
+    // names that differ in letter case only (two names, both asked for), within one SAN extension and across two
+    let case_a = RefExt::new(OID_SAN, false, ext_san(&[AbsGn::Uri(b"https://example.com/Reports".to_vec()), AbsGn::Email(b"Ops@example.com".to_vec()), AbsGn::Dns(b"Host.example".to_vec())]));
+    let case_b = RefExt::new(OID_SAN, false, ext_san(&[AbsGn::Uri(b"https://example.com/reports".to_vec()), AbsGn::Email(b"ops@example.com".to_vec()), AbsGn::Dns(b"host.example".to_vec())]));
+    let case_ab = RefExt::new(OID_SAN, false, ext_san(&[AbsGn::Uri(b"https://example.com/Reports".to_vec()), AbsGn::Uri(b"https://example.com/reports".to_vec()), AbsGn::Email(b"Ops@example.com".to_vec()), AbsGn::Email(b"ops@example.com".to_vec()), AbsGn::Dns(b"Host.example".to_vec()), AbsGn::Dns(b"host.example".to_vec())]));
+    v.push(("csr two SAN extensions whose names differ in case only".into(), sign(mk(&[case_a.clone(), case_b.clone()]).cri()), false));
+    v.push(("csr one SAN extension with names that differ in case only".into(), sign(mk(&[case_ab]).cri()), false));
+    v.push(("csr the same SAN extension twice".into(), sign(mk(&[case_a.clone(), case_a]).cri()), false));
     let eku_a = RefExt::new(OID_EKU, false, seq(&[oid(&[1, 3, 6, 1, 5, 5, 7, 3, 1])]));
     let eku_b = RefExt::new(OID_EKU, false, seq(&[oid(&[1, 3, 6, 1, 5, 5, 7, 3, 2]), oid(&[1, 3, 6, 1, 5, 5, 7, 3, 8])]));
     v.push(("csr two EKU extensions in one request".into(), sign(mk(&[eku_a.clone(), eku_b.clone()]).cri()), false));
